@@ -116,8 +116,24 @@ def synthetic_scheme_text(key):
         ('C=C', 'fragment d{C labeled c1 C labeled c2 double bond to c1}'),
         ('COC', 'fragment e{O labeled o1 C labeled c1 single bond to o1 C '
                 'labeled c2 single bond to o1}'),
+        # ring statements that a molecule WITHOUT rings satisfies (counts
+        # that zero fulfils, negations, non-ring atoms and bonds) and their
+        # opposites
+        ('openC', 'fragment a{C labeled c1 {in =0 ring}}'),
+        ('looseCC', 'fragment b{C labeled c1 {in <2 ring} C labeled c2 '
+                    'single bond to c1}'),
+        ('O1', 'fragment c{O labeled o1 {in <=1 ring}}'),
+        ('notIn1', 'fragment d{C labeled c1 {! in >=1 ring}}'),
+        ('any0', 'fragment e{C labeled c1 {in >=0 ring}}'),
+        ('not3', 'fragment f{C labeled c1 {! in ring of size =3}}'),
+        ('chainbond', 'fragment g{C labeled c1 C labeled c2 nonring bond to '
+                      'c1}'),
+        ('ringbond', 'fragment h{C labeled c1 C labeled c2 ring bond to c1}'),
+        ('chainC', 'fragment i{nonringatom C labeled c1}'),
+        ('ringO', 'fragment j{ringatom O labeled o1}'),
+        ('in2', 'fragment k{C labeled c1 {in >=2 ring}}'),
     ]
-    for name, conn in rng.sample(cands, rng.randint(0, 3)):
+    for name, conn in rng.sample(cands, rng.randint(0, 5)):
         descs.append("-   name: %s\n    connectivity: '%s'" % (
             libfiles.q(name), conn))
     remaps = []
